@@ -114,6 +114,11 @@ def replay(b: dict) -> list[tuple[str, str]]:
                         d0 = [d for d in model_of(st['f']).raw_directives if isinstance(d, models.Open)][0]
                         d0.raw_meta[0].raw_value.value = 'w'
                         token_edited.add(st['f'])
+                    elif op == 'respell':
+                        k0 = keymap[st['f']][0]
+                        k1 = os.path.relpath(k0) if os.path.isabs(k0) else os.path.abspath(k0)
+                        mapping[k1] = mapping.pop(k0)
+                        keymap[st['f']] = [k1]
                     elif op == 'edit-revert':
                         m = model_of(st['f'])
                         m.raw_directives.append(models.Close.from_value(__import__('datetime').date(2001, 1, 1), 'Assets:X'))
@@ -177,6 +182,9 @@ def replay(b: dict) -> list[tuple[str, str]]:
                     findings.append(('bytes', f'{REL[f]}: bytes outside the appended directive changed: {orig[f]!r} -> {data!r}'))
                 if data == orig[f]:
                     findings.append(('bytes', f'{REL[f]}: edit was not written'))
+            elif exp['content'] == 'respelled':
+                if data != orig[f]:
+                    findings.append(('bytes', f'{REL[f]} was only put back under another spelling but its bytes changed: {orig[f]!r} -> {data!r}'))
             elif exp['content'] == 'empty':
                 if data != b'':
                     findings.append(('bytes', f'empty new file has {data!r}'))
